@@ -684,11 +684,41 @@ class Gen:
             if self.try_op(opn, [u, v], {}, ['L']) and rng.random() < 0.5:
                 self.try_op('schur_prod', [self.L[-1], x], {}, ['L'])
 
+    def selection_scenario(self):
+        """A secret bit (result of a comparison) used as the condition of list-wise if_else / if_swap and then used
+        AGAIN: list selection must not disturb the condition it was given."""
+        rng = self.rng
+        for _ in range(6):
+            if self.try_op('ltc', [rng.choice(self.S)], {'c': self.rand_val()}, ['B']):
+                break
+        else:
+            return
+        c = self.B[-1]
+        self.S.append(c)       # the bit itself is opened at the end (C03 opens every variable)
+        n = rng.randint(1, 3)
+        if not (self.try_op('mklist', [rng.choice(self.S) for _ in range(n)], {}, ['L'])
+                and self.try_op('mklist', [rng.choice(self.S) for _ in range(n)], {}, ['L'])):
+            return
+        x, y = self.L[-2], self.L[-1]
+        opn = rng.choice(('if_swap_l', 'if_swap_l', 'if_else_l'))
+        if not self.try_op(opn, [c, x, y], {}, ['L'] if opn == 'if_else_l' else ['L', 'L']):
+            return
+        # reuse of the condition afterwards
+        r = rng.random()
+        if r < 0.4:
+            self.try_op('mul', [c, rng.choice(self.S)], {}, ['S'])
+        elif r < 0.7:
+            self.try_op('if_else_l', [c, y, x], {}, ['L'])
+        else:
+            self.try_op('add', [c, c], {}, ['S'])
+
     def build(self, all_outputs=False):
         rng = self.rng
         self.add_inputs()
         if rng.random() < 0.2:
             self.mixed_list_scenario()
+        if rng.random() < 0.1:
+            self.selection_scenario()
         for _ in range(self.size):
             if self.effects and rng.random() < 0.25:
                 every = self.S + self.L
